@@ -17,14 +17,14 @@ def configs(t):
         cfg(2, 6, 1, F=1, faults=['crash'], warm=5, inact=3, cost=5),
         cfg(2, 5, 1, F=1, faults=['crash', 'restart'], warm=5, cost=6),
         cfg(2, 5, 1, F=1, faults=['crash', 'restart'], warm=5, fence=True, cost=6),
-        cfg(2, 5, 1, F=1, faults=['isolate'], warm=5, cost=5),
-        cfg(2, 5, 1, F=1, faults=['isolate'], warm=5, fence=True, cost=5),
+        cfg(2, 4, 1, F=1, faults=['isolate'], warm=5, cost=9),
+        cfg(2, 4, 1, F=1, faults=['isolate'], warm=5, fence=True, cost=7),
         cfg(2, 5, 1, F=1, faults=['stall'], warm=5, cost=5),
         cfg(2, 6, 1, F=1, faults=['stall'], warm=5, inact=3, cost=6),
         cfg(3, 4, 0, F=1, faults=['crash'], warm=6, cost=6),
         cfg(3, 4, 0, F=1, faults=['crash'], warm=6, fence=True, cost=6),
         cfg(3, 2, 0, F=1, faults=['isolate'], warm=6, crashable=[0, 2], cost=8),
-        cfg(3, 3, 0, F=1, faults=['crash', 'restart'], warm=6, crashable=[0, 2], cost=8),
+        cfg(3, 2, 0, F=1, faults=['crash', 'restart'], warm=6, crashable=[0, 2], cost=8),
         cfg(2, 5, 1, rules=True, F=1, faults=['crash'], cost=5),
         cfg(2, 5, 1, rules=True, F=1, faults=['crash'], fence=True, cost=5),
         cfg(3, 4, 0, late=[2], warm=6, cost=4),
